@@ -415,6 +415,88 @@ def scenarios(prop, lentil, rng):
             return not bad, bad
         add('a wavefront typed by assignment (object, string, numpy string, None) follows the same table', type_by_assignment)
 
+    if prop in ('C15',):
+        def straight_line_bins():
+            w = np.linspace(400, 700, 31)
+            worst = {}
+            for a, b in ((0.3, -50.0), (-0.2, 200.0), (0.0, 3.0)):
+                v = a * w + b
+                F = lambda x: a * x ** 2 / 2 + b * x
+                for cen in (np.array([450.0, 500, 560, 600, 650]), np.array([430.0, 470, 530, 610, 660, 680]), np.linspace(420, 680, 14), np.array([450.0, 500, 550, 600, 650])):
+                    mids = cen[:-1] + np.diff(cen) / 2
+                    for ends in ('symmetric', 'inside'):
+                        edges = np.concatenate([[cen[0] - (cen[1] - cen[0]) / 2], mids, [cen[-1] + (cen[-1] - cen[-2]) / 2]]) if ends == 'symmetric' \
+                            else np.concatenate([[cen[0]], mids, [cen[-1]]])
+                        ref = F(edges[1:]) - F(edges[:-1])
+                        even = bool(np.allclose(np.diff(cen), cen[1] - cen[0], rtol=1e-12, atol=0))
+                        for method in (('simps', 'trapz') if even else ('trapz',)):      # (Simpson's rule needs the centre in the middle of its bin)
+                            got = R.Spectrum(w, v).bin(cen, interp_method=method, ends=ends, preserve_power=False)
+                            worst[f'{a}x+{b} {len(cen)} centres {ends} {method}'] = _rel(got, ref)
+                            got = R.Spectrum(w * 1e-3, v, waveunit='um').bin(cen, interp_method=method, ends=ends, preserve_power=False)
+                            worst[f'{a}x+{b} {len(cen)} centres {ends} {method} (um spectrum)'] = _rel(got, ref)
+            return max(worst.values()) < 1e-10, {k: v for k, v in worst.items() if v >= 1e-10} or {'cases': len(worst)}
+        add('bins of a straight line are its exact integrals over the bins: both rules, both kinds of ends, uneven centres', straight_line_bins)
+
+    if prop in ('C14',):
+        def integer_valued_densities():
+            w = np.linspace(400, 700, 16)
+            vals = np.array([3, 7, 12, 30, 55, 80, 120, 200, 350, 500, 420, 300, 150, 60, 20, 5])
+            worst = {}
+            for dt in (np.int64, np.uint16, np.int32):
+                for vu in ('photlam', 'flam', 'wlam'):
+                    for units in (('angstrom',), ('um',), ('m',), ('angstrom', 'wlam'), ('um', 'photlam')):
+                        s = R.Spectrum(w, vals.astype(dt), valueunit=vu)
+                        f = R.Spectrum(w, vals.astype(float), valueunit=vu)
+                        s.to(*units)
+                        f.to(*units)
+                        worst[f'{np.dtype(dt).name} {vu} -> {units}'] = max(_rel(np.asarray(s.value, dtype=float), np.asarray(f.value)), _rel(s.wave, f.wave))
+                        s.to('nm', vu)
+                        worst[f'{np.dtype(dt).name} {vu} -> {units} -> back'] = _rel(np.asarray(s.value, dtype=float), vals.astype(float))
+            return max(worst.values()) < 1e-12, {k: v for k, v in worst.items() if v >= 1e-12} or {'cases': len(worst)}
+        add('integer-typed density values convert between units like the same numbers as floats, and come back', integer_valued_densities)
+
+    if prop in ('C10', 'C20'):
+        def geometry_after_rectangle():
+            bad = {}
+            for shape in ((20, 20), (15, 22)):
+                def snapshot():
+                    m = H.mesh(shape)
+                    mask = lentil.circle(shape, 6)
+                    return [m[0].copy(), m[1].copy(), mask.copy(), lentil.hexagon(shape, 6).copy(), np.asarray(Z.zernike(mask, 3)).copy(),
+                            np.asarray(Z.zernike(mask, 2)).copy(), lentil.rectangle(shape, 5, 7).copy(), lentil.circle(shape, 4, shift=(1, -2)).copy()]
+                before = snapshot()
+                lentil.rectangle(shape, 6, 9)
+                lentil.rectangle(shape, 3, 4, shift=(1, -2))
+                lentil.rectangle(shape, 6, 9, angle=30)
+                p = lentil.Pupil(amplitude=lentil.circle(shape, 6), opd=H.mesh(shape)[0] * 1e-9, pixelscale=1e-3, focal_length=1.0)
+                p.fit_tilt()
+                after = snapshot()
+                for k, (x, y) in enumerate(zip(before, after)):
+                    if not np.array_equal(x, y):
+                        bad[f'{shape} item {k}'] = float(np.abs(x - y).max())
+            return not bad, bad
+        add('mesh / circle / hexagon / zernike / rectangle on a shape give the same arrays before and after rectangles were drawn on it', geometry_after_rectangle)
+
+    if prop in ('C10', 'C18'):
+        def global_generator_untouched():
+            img = np.abs(rng.normal(size=(8, 9))) * 50 + 5
+            m = (H.mesh((16, 16))[0] ** 2 + H.mesh((16, 16))[1] ** 2 < 49).astype(int)
+            bad = {}
+            for label, mk in (('int', lambda: 7), ('list', lambda: [3, 1, 4]), ('tuple', lambda: (3, 1, 4)), ('array', lambda: np.array([3, 1, 4])),
+                              ('numpy int', lambda: np.int64(7))):
+                for name, fn in (('shot_noise', lambda s: D.shot_noise(img, seed=s)), ('shot_noise gaussian', lambda s: D.shot_noise(img, method='gaussian', seed=s)),
+                                 ('read_noise', lambda s: D.read_noise(img, 4.0, seed=s)), ('dark_current', lambda s: D.dark_current(50.0, shape=(6, 5), fpn_factor=0.2, seed=s)),
+                                 ('rule07', lambda s: D.rule07_dark_current(80.0, 5.0, 18e-6, shape=(6, 5), fpn_factor=0.2, seed=s)),
+                                 ('power_spectrum', lambda s: lentil.power_spectrum(m, 1e-3, 5e-8, 8.0, 3.0, seed=s))):
+                    np.random.seed(12345)
+                    st = np.random.get_state()
+                    fn(mk())
+                    st2 = np.random.get_state()
+                    if not (st[0] == st2[0] and np.array_equal(st[1], st2[1]) and st[2:] == st2[2:]):
+                        bad[f'{name} seed as {label}'] = 'the global generator was seeded or advanced'
+            return not bad, bad
+        add('seeded models leave the global NumPy generator as it was, whatever form the seed has', global_generator_untouched)
+
     if prop in ('C19',):
         def megapixel_jitter_commutes():
             n = 1024
